@@ -60,7 +60,13 @@ def main():
             'engine': getattr(mod, 'ENGINE', 'E1-ctxspace'),
             'level_claimed': {
                 'category': mod.LEVEL,
-                'text': getattr(mod, 'LEVEL_TEXT', mod.RULE),
+                'text': getattr(mod, 'LEVEL_TEXT', None) or (
+                    'Bounded exhaustive exploration on the real code: the property is decided for '
+                    'EVERY case of a finite, explicitly stated space (no sampling), each case '
+                    'compared clause by clause with a reference model / differential oracle; the '
+                    'claim is "holds for all inputs, histories and configurations up to the bound", '
+                    'which is the right level for a universally quantified property of a '
+                    'sequential library whose tests are example based. Space: ' + mod.RULE),
                 'design_ref': f'DESIGN.md section 4 {pid}',
             },
             'level_note': '; '.join(mod.ASSUMPTIONS),
